@@ -5,7 +5,7 @@ CONTROL_KEYS = ['AUTO-TRAIT/g_types::RcList/Send', 'AUTO-TRAIT/g_types::RcList/S
                 'INTERIOR-MUT/g_types::BoxedCache/UnsafeCell:std::cell::Cell',
                 'GLOBAL-STATE/g_types::COUNTER/static', 'GLOBAL-STATE/g_types::SCRATCH/static',
                 'UNSAFE/g_types::raw/block', 'MUT-ACCESS/g_types::State::poke/arg1',
-                'EFFECT/g_types::now/std::time::', 'EFFECT/g_types::bump/std::sync::atomic::']
+                'EFFECT/g_types::now/std::time::', 'EFFECT/g_types::bump/std::sync::atomic::', 'REFCOUNT-OBSERVE/g_types::shared_elsewhere/strong_count']
 
 
 def controls(cprog, cfacts):
